@@ -50,3 +50,8 @@ func verifFilterExpiredKeys(tag string) {
 }
 
 func Verif_C20_FilterExpiredKeys() { verifFilterExpiredKeys("C20") }
+
+// The same filter decides what a log rewrite writes into the preamble (C09) and what a snapshot
+// captures and restores (C03).
+func Verif_C09_FilterExpiredKeys() { verifFilterExpiredKeys("C09") }
+func Verif_C03_FilterExpiredKeys() { verifFilterExpiredKeys("C03") }
